@@ -772,7 +772,13 @@ class ThreadManager(SimplePlugin):
 
     def stop(self):
         """Release all threads and run all 'stop_thread' listeners."""
-        for thread_ident, i in self.threads.items():
+        # Request threads register and release themselves while the bus
+        # stops: take the entries out one at a time (each is removed by
+        # exactly one party) instead of iterating over a changing dict.
+        while self.threads:
+            try:
+                thread_ident, i = self.threads.popitem()
+            except KeyError:
+                break
             self.bus.publish('stop_thread', i)
-        self.threads.clear()
     graceful = stop
